@@ -98,7 +98,9 @@ def check(env, rep, tier):
         good = bool(pays) and bool(takes)
         for e in pays:
             v = e[1]
-            src = [t for t in takes if isinstance(t[1], EnumV) and 1 in t[1].variants and isinstance(t[1].variants[1], StructV) and t[1].variants[1].fields[0] == v]
+            src = [t for t in takes if isinstance(t[1], EnumV) and 1 in t[1].variants and isinstance(t[1].variants[1], StructV)
+                   and (t[1].variants[1].fields[0] == v or (isinstance(v, VecV) and isinstance(t[1].variants[1].fields[0], VecV)
+                        and v.gen is not None and v.gen == t[1].variants[1].fields[0].gen))]
             if not src:
                 good = False
         rep.ob("C09.1", "final-payload-is-buffer", good, "the payload delivered with the final block is not the value taken from the per-key buffer", site)
@@ -137,6 +139,18 @@ def check(env, rep, tier):
         rep.ob("C09.2", "splice", good,
                "the block is not spliced into the per-key buffer at offset num x size with length size from the request payload", site,
                sample={"rule": "C09.2", "splice_calls": len(spl)})
+        # ---- C09.5 the body handed over ends where the final block ends (no stale tail of an earlier upload)
+        okl = bool(pays) and bool(spl)
+        for e in pays:
+            v, s_ = e[1], e[2]
+            rng = s_.ghost.get("splice_range")
+            pl0 = tr.req_payload0
+            if not (isinstance(v, VecV) and rng is not None and isinstance(pl0, VecV) and s_.entails_eq(v.len, rng + pl0.len)):
+                okl = False
+        rep.ob("C09.5", "final-length", okl,
+               "the body delivered with the final block is not shown to end at offset + length of the final block: "
+               "bytes of an earlier, longer (abandoned) upload to the same resource can remain behind it", site,
+               sample={"rule": "C09.5", "final_paths": len(pays)})
         # ---- C09.4 negotiated size bounded by the client's
         news = [e for e in tr.events if e[0] == "bv-new" and e[4] is not None]
         good = bool(news)
